@@ -313,6 +313,9 @@ func c12Run(w *W, idx int) {
 	if idx%40 == 8 {
 		c12DebugHelperLists(w, r)
 	}
+	if idx%40 == 28 {
+		c12DyingOperator(w, r)
+	}
 	if plain.Dump != evv.Dump {
 		w.Fail("event-mode-changes-dump", "Dump differs between the plain and the event-mode program\nsource: %s\nconfig: %s\nplain:  %s\nevents: %s", src, ecfg, oneLine(plain.Dump), oneLine(evv.Dump))
 	}
@@ -641,6 +644,60 @@ func c12DebugHelperLists(w *W, r *rand.Rand) {
 		case !valEq(before, varList):
 			w.Fail("callers-list-changed-by-HandleDebugEvent", "the caller's list variable was changed while HandleDebugEvent consumed the events: %v -> %v", before, varList)
 			return
+		}
+	}
+}
+
+// c12DyingOperator: a registered operator with an unchecked type assertion dies with a run-time error when a lookup hands
+// it nil or a value of another type. Whatever the library makes of that (the pinned one lets the panic reach the caller),
+// it makes the same of it with and without event reporting: an evaluation that dies without events does not quietly
+// carry on, with a made-up operand, when events are on.
+func c12DyingOperator(w *W, r *rand.Rand) {
+	unsafeLen := func(_ *eval.Ctx, p []eval.Value) (eval.Value, error) { return int64(len(p[0].(string))), nil }
+	unsafeIdx := func(_ *eval.Ctx, p []eval.Value) (eval.Value, error) { return p[0].([]int64)[p[1].(int64)], nil }
+	srcs := []string{
+		"(= (unsafe_len s0) 0)", "(and b0 (> (unsafe_len s0) 2))", "(if b0 (unsafe_len s0) 1)", "(+ 1 (unsafe_len s0) (unsafe_len s0))",
+		"(or (> (unsafe_idx li0 i0) 3) b0)", "(not (= (unsafe_idx li0 i0) (unsafe_len s0)))",
+	}
+	src := srcs[r.Intn(len(srcs))]
+	opts := OptSet(r.Intn(16))
+	mk := func(events int) (*eval.Expr, *eval.Config, bool) {
+		cc := buildConfig(CaseCfg{Opts: opts, Events: events, VarNames: []string{"s0", "b0", "li0", "i0"}}, nil)
+		cc.OperatorMap["unsafe_len"] = unsafeLen
+		cc.OperatorMap["unsafe_idx"] = unsafeIdx
+		e, co := compileGuard(cc, src)
+		if co.Panic != nil || co.Err != nil {
+			w.Fail("dying-operator/compile", "%s does not compile: %s", src, co)
+			return nil, nil, false
+		}
+		return e, cc, true
+	}
+	plain, pcc, ok := mk(0)
+	if !ok {
+		return
+	}
+	for _, mode := range []int{1, 2} {
+		ev, _, ok := mk(mode)
+		if !ok {
+			return
+		}
+		for _, s0 := range []interface{}{"abc", "", nil, int64(3)} {
+			for _, i0 := range []int64{0, 1, 5, -1} {
+				vals := map[string]interface{}{"s0": s0, "b0": r.Intn(2) == 0, "li0": []int64{4, 2}, "i0": i0}
+				for _, kind := range []CallKind{CallEval, CallTryEval} {
+					po, _ := callExpr(plain, kind, &RecFetcher{Vals: vals, Keys: pcc.VariableKeyMap}, nil, false)
+					eo, _ := callExpr(ev, kind, &RecFetcher{Vals: vals, Keys: pcc.VariableKeyMap}, nil, true)
+					w.Evals += 2
+					w.Inc("dying_operator_calls")
+					if po.Panic != nil {
+						w.Inc("dying_operator_panics_without_events")
+					}
+					if !outcomeEq(po, eo) {
+						w.Fail("event-mode-changes-result/dying-operator", "an operator that dies with a run-time error (unchecked type assertion / index): without events the evaluation gives %s, with %s it gives %s\nsource: %s (options %s)\nbinding: s0=%#v i0=%d b0=%v", po, []string{"", "ReportEvent", "Debug"}[mode], eo, src, opts, s0, i0, vals["b0"])
+						return
+					}
+				}
+			}
 		}
 	}
 }
